@@ -5,6 +5,7 @@ import (
 	"crypto/sha256"
 	"encoding/json"
 	"fmt"
+	"github.com/dcaiafa/lox/verif/internal/root"
 	"os"
 	"os/exec"
 	"path/filepath"
@@ -300,12 +301,12 @@ func c13Worker(c *mc.Ctx) {
 	}
 	c13DirWorker(c, depth)
 	// (a) map-order seam: a separate binary built with every map range rewritten
-	bin := "/verif/bin/loxmc-maporder"
+	bin := root.Path("bin", "loxmc-maporder")
 	if _, err := os.Stat(bin); err != nil {
 		c.Stats.HarnessError("bin/loxmc-maporder is missing (run.sh builds it for C13)")
 		return
 	}
-	b, err := os.ReadFile("/verif/work/maporder/sites.json")
+	b, err := os.ReadFile(root.Path("work", "maporder", "sites.json"))
 	if err == nil {
 		var sj struct {
 			Sites   []string `json:"sites"`
@@ -391,7 +392,7 @@ func c13Replay(raw json.RawMessage) *mc.Violation {
 		v := mc.Violation{Property: "C13", Check: "C13maporder", Case: raw}
 		b, _ := json.Marshal(v)
 		os.WriteFile(tmp, b, 0o666)
-		out, err := exec.Command("/verif/bin/loxmc-maporder", "replay", tmp).Output()
+		out, err := exec.Command(root.Path("bin", "loxmc-maporder"), "replay", tmp).Output()
 		if err == nil {
 			return nil
 		}
